@@ -1,47 +1,63 @@
 /-
-Helper lemmas for C20 (2/3): the frame condition `Respects`, the invariant `Good`, and the effect
-of every single statement on a state that satisfies the invariant.
+Helper lemmas for C20: the frame condition `Respects` (over reachability in the object graph), the
+invariant `Good`, and the effect of every single statement on a state that satisfies the invariant.
 -/
 import PybropsModel.Lemmas.ProgramBasic
 set_option autoImplicit false
 set_option linter.unusedSectionVars false
+set_option linter.unusedVariables false
 
 namespace Program
 section
 variable {σ V : Type}
 
-/-- number of values an operator must return (`pselect` also returns the mating configuration) -/
-def arity : OpK → Nat
-  | .pselect => 6
-  | _ => 5
-
-/-- **Frame condition relative to the protected cells `S`** (the stored start containers):
-    an operator / logbook call that is *not handed* a protected cell (all of which exist) leaves every
-    protected cell as it is and returns only valid, unprotected references; the heap never shrinks.  Everything
-    else is unconstrained: in-place mutation of anything handed now or earlier, allocation,
-    aliasing among the returned references, dependence on an internal state `σ`. -/
+/-- **Frame condition relative to the protected region** — the object graphs below the stored start
+    containers `S`.  Of a heap that is well formed, whose region exists and is not referenced from
+    outside, an operator / logbook call that is *not handed* anything inside the region
+    * leaves every cell of the region as it is,
+    * stores no reference into the region anywhere outside it (it has none to store),
+    * returns only valid references outside the region,
+    * keeps the heap well formed and does not shrink it.
+    Everything else is unconstrained: in-place mutation of any object reachable from what is handed
+    now or was handed earlier, allocation, aliasing, sharing among the returned graphs, dependence on
+    an internal state `σ`. -/
 structure Respects (S : List Ref) (ops : Ops σ V) : Prop where
-  op : ∀ (k : OpK) (s : σ) (h : Heap V) (as : List Ref) (t tm : Nat),
-    (∀ x ∈ S, x < h.length) → (∀ a ∈ as, a < h.length ∧ a ∉ S) →
-      h.length ≤ (ops.op k s h as t tm).2.1.length ∧
-      (∀ x ∈ S, (ops.op k s h as t tm).2.1[x]? = h[x]?) ∧
-      (∀ a ∈ (ops.op k s h as t tm).2.2, a < (ops.op k s h as t tm).2.1.length ∧ a ∉ S) ∧
+  op : ∀ (k : OpK) (s : σ) (h : Heap (Cell V)) (as : List Ref) (t tm : Nat),
+    WFH h → (∀ x, InReg h S x → x < h.length) → Iso h S → (∀ a ∈ as, a < h.length ∧ ¬ InReg h S a) →
+      h.length ≤ (ops.op k s h as t tm).2.1.length ∧ WFH (ops.op k s h as t tm).2.1 ∧
+      (∀ x, InReg h S x → (ops.op k s h as t tm).2.1[x]? = h[x]?) ∧
+      (∀ (x : Nat) (c : Cell V), (ops.op k s h as t tm).2.1[x]? = some c → ¬ InReg h S x →
+        ∀ r ∈ c.refs, ¬ InReg h S r) ∧
+      (∀ a ∈ (ops.op k s h as t tm).2.2, a < (ops.op k s h as t tm).2.1.length ∧ ¬ InReg h S a) ∧
       (ops.op k s h as t tm).2.2.length = arity k
-  log : ∀ (k : LogK) (s : σ) (h : Heap V) (as : List Ref) (t tm : Nat) (rp : Int),
-    (∀ x ∈ S, x < h.length) → (∀ a ∈ as, a < h.length ∧ a ∉ S) →
-      h.length ≤ (ops.log k s h as t tm rp).2.length ∧
-      (∀ x ∈ S, (ops.log k s h as t tm rp).2[x]? = h[x]?)
+  log : ∀ (k : LogK) (s : σ) (h : Heap (Cell V)) (as : List Ref) (t tm : Nat) (rp : Int),
+    WFH h → (∀ x, InReg h S x → x < h.length) → Iso h S → (∀ a ∈ as, a < h.length ∧ ¬ InReg h S a) →
+      h.length ≤ (ops.log k s h as t tm rp).2.length ∧ WFH (ops.log k s h as t tm rp).2 ∧
+      (∀ x, InReg h S x → (ops.log k s h as t tm rp).2[x]? = h[x]?) ∧
+      (∀ (x : Nat) (c : Cell V), (ops.log k s h as t tm rp).2[x]? = some c → ¬ InReg h S x →
+        ∀ r ∈ c.refs, ¬ InReg h S r)
 
-/-- the invariant: not crashed; the start references are `S`, valid, with contents `V0`;
-    every program variable that is set refers to a valid cell outside `S` -/
-structure Good (S : List Ref) (V0 : List (Option V)) (st : State σ V) : Prop where
+/-- the invariant: not crashed; the heap is well formed; the start references are `S`; the object
+    graphs below them lie in the part of the heap that existed at initialisation, are not referenced
+    from outside, and look (to depth `d`) like `V0`; every program variable that is set refers to a
+    valid cell outside that region -/
+structure Good (d : Nat) (S : List Ref) (V0 : List (Option (View V))) (st : State σ V) : Prop where
   nbad : st.bad = false
   start : st.start = S.map some
-  svalid : ∀ s ∈ S, s < st.heap.length
-  svals : vals st.heap S = V0
-  regs : ∀ r a, st.regs r = some a → a < st.heap.length ∧ a ∉ S
+  wf : WFH st.heap
+  n0le : st.n0 ≤ st.heap.length
+  region : ∀ x, InReg st.heap S x → x < st.n0
+  iso : Iso st.heap S
+  svals : vals d st.heap S = V0
+  regs : ∀ r a, st.regs r = some a → a < st.heap.length ∧ ¬ InReg st.heap S a
 
-variable {S : List Ref} {V0 : List (Option V)} {ops : Ops σ V} {cfg : Cfg V}
+variable {S : List Ref} {V0 : List (Option (View V))} {ops : Ops σ V} {cfg : Cfg V} {d : Nat}
+
+theorem Good.svalid {st : State σ V} (g : Good d S V0 st) : ∀ s ∈ S, s < st.heap.length :=
+  fun s hs => lt_of_lt_of_le (g.region s (InReg.of_mem hs)) g.n0le
+
+theorem Good.regionValid {st : State σ V} (g : Good d S V0 st) : ∀ x, InReg st.heap S x → x < st.heap.length :=
+  fun x hx => lt_of_lt_of_le (g.region x hx) g.n0le
 
 theorem resolve_mem (regs : Reg → Option Ref) :
     ∀ (rs : List Reg) (as : List Ref), resolve regs rs = some as → ∀ a ∈ as, ∃ r, regs r = some a
@@ -61,13 +77,22 @@ theorem resolve_mem (regs : Reg → Option Ref) :
         · exact ⟨r, h1⟩
         · exact resolve_mem regs rs as0 h2 a ha
 
-theorem Good.args_ok {st : State σ V} (g : Good S V0 st) {args : List Reg} {as : List Ref}
-    (h : resolve st.regs args = some as) : ∀ a ∈ as, a < st.heap.length ∧ a ∉ S := by
+theorem Good.args_ok {st : State σ V} (g : Good d S V0 st) {args : List Reg} {as : List Ref}
+    (h : resolve st.regs args = some as) : ∀ a ∈ as, a < st.heap.length ∧ ¬ InReg st.heap S a := by
   intro a ha
   obtain ⟨r, hr⟩ := resolve_mem _ _ _ h a ha
   exact g.regs r a hr
 
-theorem Good.startVals {st : State σ V} (g : Good S V0 st) : startVals st.heap st.start = V0 := by
+theorem Good.bound_ok {st : State σ V} (g : Good d S V0 st) {need : List Kw} {args : List (Kw × Reg)}
+    {as : List Ref} (h : (bindArgs need args).bind (resolve st.regs) = some as) :
+    ∀ a ∈ as, a < st.heap.length ∧ ¬ InReg st.heap S a := by
+  cases hb : bindArgs need args with
+  | none => simp [hb] at h
+  | some rl =>
+    simp only [hb, Option.bind_some] at h
+    exact g.args_ok h
+
+theorem Good.startVals {st : State σ V} (g : Good d S V0 st) : startVals d st.heap st.start = V0 := by
   rw [g.start, startVals_map_some, g.svals]
 
 /-! ### statements without an event -/
@@ -79,78 +104,141 @@ theorem execS_tick {st : State σ V} (hb : st.bad = false) :
     execS ops cfg .tick st = { st with t := st.t + 1 } := by
   simp [execS, hb]
 
-theorem execS_resetT {st : State σ V} (hb : st.bad = false) :
-    execS ops cfg .resetT st = { st with t := 0 } := by
+theorem execS_setT0 {st : State σ V} (hb : st.bad = false) :
+    execS ops cfg .setT0 st = { st with t := 0 } := by
   simp [execS, hb]
+
+theorem execS_move {st : State σ V} (hb : st.bad = false) (dst src : Reg) (a : Ref)
+    (h : st.regs src = some a) :
+    execS ops cfg (.move dst src) st = { st with regs := setReg st.regs dst (some a) } := by
+  simp [execS, hb, h]
 
 theorem execS_incRep {st : State σ V} (hb : st.bad = false) :
     execS ops cfg .incRep st = { st with rep := st.rep + 1 } := by
   simp [execS, hb]
 
-theorem execS_newMisc {st : State σ V} (hb : st.bad = false) :
-    execS ops cfg .newMisc st =
-      { st with heap := st.heap ++ [cfg.emptyV], regs := setReg st.regs .misc (some st.heap.length) } := by
+theorem execS_newDict {st : State σ V} (hb : st.bad = false) (dst : Reg) :
+    execS ops cfg (.newDict dst) st =
+      { st with heap := st.heap ++ [⟨cfg.emptyV, []⟩], regs := setReg st.regs dst (some st.heap.length) } := by
   simp [execS, hb]
 
-theorem Good.tick {st : State σ V} (g : Good S V0 st) : Good S V0 { st with t := st.t + 1 } :=
-  ⟨g.nbad, g.start, g.svalid, g.svals, g.regs⟩
+theorem Good.tick {st : State σ V} (g : Good d S V0 st) : Good d S V0 { st with t := st.t + 1 } :=
+  ⟨g.nbad, g.start, g.wf, g.n0le, g.region, g.iso, g.svals, g.regs⟩
 
-theorem Good.resetT {st : State σ V} (g : Good S V0 st) : Good S V0 { st with t := 0 } :=
-  ⟨g.nbad, g.start, g.svalid, g.svals, g.regs⟩
+theorem Good.setT0 {st : State σ V} (g : Good d S V0 st) : Good d S V0 { st with t := 0 } :=
+  ⟨g.nbad, g.start, g.wf, g.n0le, g.region, g.iso, g.svals, g.regs⟩
 
-theorem Good.incRep {st : State σ V} (g : Good S V0 st) : Good S V0 { st with rep := st.rep + 1 } :=
-  ⟨g.nbad, g.start, g.svalid, g.svals, g.regs⟩
+theorem Good.move {st : State σ V} (g : Good d S V0 st) (dst src : Reg) (a : Ref) (h : st.regs src = some a) :
+    Good d S V0 { st with regs := setReg st.regs dst (some a) } :=
+  ⟨g.nbad, g.start, g.wf, g.n0le, g.region, g.iso, g.svals,
+    setReg_pred (fun a => a < st.heap.length ∧ ¬ InReg st.heap S a) st.regs dst a g.regs (g.regs src a h)⟩
 
-/-- allocation of one cell that is stored in a program variable -/
-theorem Good.alloc {st : State σ V} (g : Good S V0 st) (v : V) (dst : Reg) :
-    Good S V0 { st with heap := st.heap ++ [v], regs := setReg st.regs dst (some st.heap.length) } := by
-  refine ⟨g.nbad, g.start, ?_, ?_, ?_⟩
-  · intro s hs
-    have := g.svalid s hs
-    show s < (st.heap ++ [v]).length
-    rw [List.length_append]; exact Nat.lt_add_right _ this
-  · show vals (st.heap ++ [v]) S = V0
-    rw [vals_grow _ _ _ g.svalid, g.svals]
-  · apply setReg_pred (fun a => a < (st.heap ++ [v]).length ∧ a ∉ S)
+theorem Good.incRep {st : State σ V} (g : Good d S V0 st) : Good d S V0 { st with rep := st.rep + 1 } :=
+  ⟨g.nbad, g.start, g.wf, g.n0le, g.region, g.iso, g.svals, g.regs⟩
+
+/-- appending cells whose references are valid and do not point into the region, and storing one
+    of the new addresses in a program variable -/
+theorem Good.extend {st : State σ V} (g : Good d S V0 st) (ext : Heap (Cell V)) (dst : Reg) (x : Nat)
+    (hrefs : ∀ c ∈ ext, ∀ r ∈ c.refs, r < st.heap.length + ext.length ∧ ¬ InReg st.heap S r)
+    (hx : st.heap.length ≤ x ∧ x < st.heap.length + ext.length) :
+    Good d S V0 { st with heap := st.heap ++ ext, regs := setReg st.regs dst (some x) } := by
+  have hsame : ∀ y, InReg st.heap S y → (st.heap ++ ext)[y]? = st.heap[y]? :=
+    fun y hy => List.getElem?_append_left (g.regionValid y hy)
+  have hreg : ∀ y, InReg (st.heap ++ ext) S y ↔ InReg st.heap S y := InReg.congr hsame
+  have hnew : ∀ y, st.heap.length ≤ y → ¬ InReg st.heap S y :=
+    fun y hy hin => absurd (g.regionValid y hin) (not_lt.mpr hy)
+  refine ⟨g.nbad, g.start, ?_, ?_, ?_, ?_, ?_, ?_⟩
+  · exact g.wf.append ext (fun c hc r hr => (hrefs c hc r hr).1)
+  · show st.n0 ≤ (st.heap ++ ext).length
+    rw [List.length_append]; exact Nat.le_add_right_of_le g.n0le
+  · intro y hy; exact g.region y ((hreg y).mp hy)
+  · intro y c hc hny r hr
+    rw [hreg] at hny ⊢
+    by_cases hy : y < st.heap.length
+    · rw [List.getElem?_append_left hy] at hc
+      exact g.iso y c hc hny r hr
+    · rw [List.getElem?_append_right (not_lt.mp hy)] at hc
+      exact (hrefs c (List.mem_of_getElem? hc) r hr).2
+  · show vals d (st.heap ++ ext) S = V0
+    rw [← g.svals]
+    exact vals_congr _ _ _ _ (fun a ha => viewO_append d g.wf ext (g.svalid a ha))
+  · apply setReg_pred (fun a => a < (st.heap ++ ext).length ∧ ¬ InReg (st.heap ++ ext) S a)
     · intro r a h
       have := g.regs r a h
-      refine ⟨?_, this.2⟩
-      show a < (st.heap ++ [v]).length
+      refine ⟨?_, fun hin => this.2 ((hreg a).mp hin)⟩
+      show a < (st.heap ++ ext).length
       rw [List.length_append]; exact Nat.lt_add_right _ this.1
-    · refine ⟨?_, ?_⟩
-      · show st.heap.length < (st.heap ++ [v]).length
-        simp
-      intro hin
-      exact absurd (g.svalid _ hin) (lt_irrefl _)
+    · refine ⟨?_, fun hin => hnew x hx.1 ((hreg x).mp hin)⟩
+      show x < (st.heap ++ ext).length
+      rw [List.length_append]; exact hx.2
 
-theorem execS_copyStart {st : State σ V} (g : Good S V0 st) (dst : Reg) (i : Nat) (hi : i < S.length) :
-    ∃ v, V0[i]? = some (some v) ∧
-      execS ops cfg (.copyStart dst i) st =
-        { st with heap := st.heap ++ [v], regs := setReg st.regs dst (some st.heap.length) } := by
+/-- allocation of one cell without references that is stored in a program variable -/
+theorem Good.alloc {st : State σ V} (g : Good d S V0 st) (v : V) (dst : Reg) :
+    Good d S V0 { st with heap := st.heap ++ [⟨v, []⟩], regs := setReg st.regs dst (some st.heap.length) } :=
+  g.extend [⟨v, []⟩] dst st.heap.length (by simp) (by simp)
+
+/-- `X = copy.deepcopy(self.start_i)`: the new working container is outside the region and looks
+    like the start container -/
+theorem execS_copyStart {st : State σ V} (g : Good d S V0 st) (dst : Reg) (i : Nat) (hi : i < S.length) :
+    execS ops cfg (.copyStart dst i) st =
+        { st with heap := deepCopyAll st.n0 st.heap, regs := setReg st.regs dst (some (S[i] + st.heap.length)) } ∧
+      Good d S V0 { st with heap := deepCopyAll st.n0 st.heap,
+                            regs := setReg st.regs dst (some (S[i] + st.heap.length)) } ∧
+      V0[i]? = some (viewO d (deepCopyAll st.n0 st.heap) (S[i] + st.heap.length)) := by
   have hs : st.start[i]? = some (some S[i]) := by
     rw [g.start]; simp [hi]
-  have hv : S[i] < st.heap.length := g.svalid _ (List.getElem_mem hi)
-  refine ⟨st.heap[S[i]], ?_, ?_⟩
-  · rw [← g.svals]
-    simp [vals, hi, List.getElem?_eq_getElem hv]
-  · simp [execS, g.nbad, hs, List.getElem?_eq_getElem hv]
+  have hin : InReg st.heap S S[i] := InReg.of_mem (List.getElem_mem hi)
+  have hn0 : S[i] < st.n0 := g.region _ hin
+  have hcl : ∀ x, Reach st.heap S[i] x → x < st.n0 := fun x hx => g.region x ⟨S[i], List.getElem_mem hi, hx⟩
+  refine ⟨?_, ?_, ?_⟩
+  · simp [execS, g.nbad, hs, hn0, g.n0le]
+  · have hlen : ((st.heap.take st.n0).map (shiftCell st.n0 st.heap.length)).length = st.n0 := by
+      simp [Nat.min_eq_left g.n0le]
+    apply g.extend ((st.heap.take st.n0).map (shiftCell st.n0 st.heap.length)) dst
+    · intro c hc r hr
+      have hwf := deepCopyAll_wf st.n0 g.wf g.n0le
+      obtain ⟨j, hj, hcj⟩ := List.mem_iff_getElem.mp hc
+      have hget : (deepCopyAll st.n0 st.heap)[st.heap.length + j]? = some c := by
+        unfold deepCopyAll
+        rw [List.getElem?_append_right (Nat.le_add_right _ _)]
+        simp only [Nat.add_sub_cancel_left]
+        rw [← hcj]; exact List.getElem?_eq_getElem hj
+      have hvalid := hwf _ c hget r hr
+      rw [deepCopyAll_length _ _ g.n0le] at hvalid
+      refine ⟨by rw [hlen]; exact hvalid, ?_⟩
+      -- a reference of a copied cell is a shifted one (beyond the old heap) or points outside the prefix
+      obtain ⟨c0, _, rfl⟩ := List.mem_map.mp hc
+      simp only [shiftCell, List.mem_map] at hr
+      obtain ⟨r0, _, rfl⟩ := hr
+      intro hin'
+      have hlt := g.region _ hin'
+      by_cases hr0 : r0 < st.n0
+      · rw [if_pos hr0] at hlt
+        exact absurd (lt_of_lt_of_le hlt g.n0le) (Nat.not_lt.mpr (Nat.le_add_left _ _))
+      · rw [if_neg hr0] at hlt
+        exact hr0 hlt
+    · rw [hlen]
+      exact ⟨Nat.le_add_left _ _, by rw [Nat.add_comm]; exact Nat.add_lt_add_left hn0 _⟩
+  · rw [viewO_copy st.n0 st.heap g.n0le d S[i] hcl, ← g.svals]
+    simp [vals, hi]
 
 /-! ### operator and logbook calls -/
 
 /-- the event recorded for an operator call from state `st` with resolved arguments `as` -/
-def callEvent (ops : Ops σ V) (cfg : Cfg V) (k : OpK) (as : List Ref) (st : State σ V) : Event V :=
+def callEvent (ops : Ops σ V) (cfg : Cfg V) (k : OpK) (as : List Ref) (st : State σ V) : Event (View V) :=
   { kind := .op k, t := st.t, tmax := cfg.tmax, rep := st.rep, args := as,
-    argVals := vals st.heap as, rets := (ops.op k st.ost st.heap as st.t cfg.tmax).2.2,
-    retVals := vals (ops.op k st.ost st.heap as st.t cfg.tmax).2.1 (ops.op k st.ost st.heap as st.t cfg.tmax).2.2,
-    startVals := startVals st.heap st.start }
+    argVals := vals cfg.depth st.heap as, rets := (ops.op k st.ost st.heap as st.t cfg.tmax).2.2,
+    retVals := vals cfg.depth (ops.op k st.ost st.heap as st.t cfg.tmax).2.1
+      (ops.op k st.ost st.heap as st.t cfg.tmax).2.2,
+    startVals := startVals cfg.depth st.heap st.start }
 
-def logEvent (cfg : Cfg V) (k : LogK) (as : List Ref) (st : State σ V) : Event V :=
+def logEvent (cfg : Cfg V) (k : LogK) (as : List Ref) (st : State σ V) : Event (View V) :=
   { kind := .log k, t := st.t, tmax := cfg.tmax, rep := st.rep, args := as,
-    argVals := vals st.heap as, rets := [], retVals := [],
-    startVals := startVals st.heap st.start }
+    argVals := vals cfg.depth st.heap as, rets := [], retVals := [],
+    startVals := startVals cfg.depth st.heap st.start }
 
-theorem execS_call {st : State σ V} (hb : st.bad = false) (k : OpK) (args rets : List Reg)
-    (as : List Ref) (hres : resolve st.regs args = some as)
+theorem execS_call {st : State σ V} (hb : st.bad = false) (k : OpK) (args : List (Kw × Reg)) (rets : List Reg)
+    (as : List Ref) (hres : (bindArgs (opKws k) args).bind (resolve st.regs) = some as)
     (hlen : (ops.op k st.ost st.heap as st.t cfg.tmax).2.2.length = rets.length) :
     execS ops cfg (.call k args rets) st =
       { st with ost := (ops.op k st.ost st.heap as st.t cfg.tmax).1,
@@ -159,8 +247,9 @@ theorem execS_call {st : State σ V} (hb : st.bad = false) (k : OpK) (args rets 
                 trace := st.trace ++ [callEvent ops cfg k as st] } := by
   simp [execS, hb, hres, hlen, callEvent]
 
-theorem execS_log {st : State σ V} (hb : st.bad = false) (k : LogK) (guarded : Bool) (args : List Reg)
-    (as : List Ref) (hres : resolve st.regs args = some as) (hg : (guarded && !cfg.loginit) = false) :
+theorem execS_log {st : State σ V} (hb : st.bad = false) (k : LogK) (guarded : Bool) (args : List (Kw × Reg))
+    (as : List Ref) (hres : (bindArgs (logKws k) args).bind (resolve st.regs) = some as)
+    (hg : (guarded && !cfg.loginit) = false) :
     execS ops cfg (.log k guarded args) st =
       { st with ost := (ops.log k st.ost st.heap as st.t cfg.tmax st.rep).1,
                 heap := (ops.log k st.ost st.heap as st.t cfg.tmax st.rep).2,
@@ -168,45 +257,59 @@ theorem execS_log {st : State σ V} (hb : st.bad = false) (k : LogK) (guarded : 
   simp only [execS, hb, hres, logEvent]
   simp [hg]
 
-theorem execS_log_off {st : State σ V} (k : LogK) (args : List Reg) (hg : cfg.loginit = false) :
+theorem execS_log_off {st : State σ V} (k : LogK) (args : List (Kw × Reg)) (hg : cfg.loginit = false) :
     execS ops cfg (.log k true args) st = st := by
   unfold execS
   split
   · rfl
   · simp [hg]
 
-theorem Good.call {st : State σ V} (g : Good S V0 st) (hR : Respects S ops) (k : OpK)
-    (rets : List Reg) (as : List Ref) (has : ∀ a ∈ as, a < st.heap.length ∧ a ∉ S) :
-    Good S V0 { st with ost := (ops.op k st.ost st.heap as st.t cfg.tmax).1,
-                        heap := (ops.op k st.ost st.heap as st.t cfg.tmax).2.1,
-                        regs := assign st.regs rets (ops.op k st.ost st.heap as st.t cfg.tmax).2.2,
-                        trace := st.trace ++ [callEvent ops cfg k as st] } := by
-  obtain ⟨h1, h2, h3, _⟩ := hR.op k st.ost st.heap as st.t cfg.tmax g.svalid has
-  refine ⟨g.nbad, g.start, ?_, ?_, ?_⟩
-  · intro s hs; exact lt_of_lt_of_le (g.svalid s hs) h1
-  · show vals (ops.op k st.ost st.heap as st.t cfg.tmax).2.1 S = V0
+/-- the invariant after a heap change that leaves the region alone and creates no reference into it -/
+theorem Good.heapChange {st : State σ V} (g : Good d S V0 st) (h' : Heap (Cell V))
+    (h1 : st.heap.length ≤ h'.length) (hwf : WFH h')
+    (h2 : ∀ x, InReg st.heap S x → h'[x]? = st.heap[x]?)
+    (h3 : ∀ (x : Nat) (c : Cell V), h'[x]? = some c → ¬ InReg st.heap S x → ∀ r ∈ c.refs, ¬ InReg st.heap S r)
+    (regs' : Reg → Option Ref)
+    (hregs : ∀ r a, regs' r = some a → a < h'.length ∧ ¬ InReg st.heap S a)
+    (ost' : σ) (tr' : List (Event (View V))) :
+    Good d S V0 { st with ost := ost', heap := h', regs := regs', trace := tr' } := by
+  have hreg : ∀ y, InReg h' S y ↔ InReg st.heap S y := InReg.congr h2
+  refine ⟨g.nbad, g.start, hwf, le_trans g.n0le h1, ?_, ?_, ?_, ?_⟩
+  · intro y hy; exact g.region y ((hreg y).mp hy)
+  · intro y c hc hny r hr
+    rw [hreg] at hny ⊢
+    exact h3 y c hc hny r hr
+  · show vals d h' S = V0
     rw [← g.svals]
-    exact vals_congr _ _ _ (fun a ha => h2 a ha)
-  · apply assign_pred (fun a => a < (ops.op k st.ost st.heap as st.t cfg.tmax).2.1.length ∧ a ∉ S)
-    · intro r a h
-      have := g.regs r a h
-      exact ⟨lt_of_lt_of_le this.1 h1, this.2⟩
-    · exact h3
+    exact vals_congr _ _ _ _ (fun a ha => viewO_congr d (fun x hx => h2 x ⟨a, ha, hx⟩))
+  · intro r a h
+    have := hregs r a h
+    exact ⟨this.1, fun hin => this.2 ((hreg a).mp hin)⟩
 
-theorem Good.log {st : State σ V} (g : Good S V0 st) (hR : Respects S ops) (k : LogK)
-    (as : List Ref) (has : ∀ a ∈ as, a < st.heap.length ∧ a ∉ S) :
-    Good S V0 { st with ost := (ops.log k st.ost st.heap as st.t cfg.tmax st.rep).1,
-                        heap := (ops.log k st.ost st.heap as st.t cfg.tmax st.rep).2,
-                        trace := st.trace ++ [logEvent cfg k as st] } := by
-  obtain ⟨h1, h2⟩ := hR.log k st.ost st.heap as st.t cfg.tmax st.rep g.svalid has
-  refine ⟨g.nbad, g.start, ?_, ?_, ?_⟩
-  · intro s hs; exact lt_of_lt_of_le (g.svalid s hs) h1
-  · show vals (ops.log k st.ost st.heap as st.t cfg.tmax st.rep).2 S = V0
-    rw [← g.svals]
-    exact vals_congr _ _ _ (fun a ha => h2 a ha)
+theorem Good.call {st : State σ V} (g : Good d S V0 st) (hR : Respects S ops) (k : OpK)
+    (rets : List Reg) (as : List Ref) (has : ∀ a ∈ as, a < st.heap.length ∧ ¬ InReg st.heap S a) :
+    Good d S V0 { st with ost := (ops.op k st.ost st.heap as st.t cfg.tmax).1,
+                          heap := (ops.op k st.ost st.heap as st.t cfg.tmax).2.1,
+                          regs := assign st.regs rets (ops.op k st.ost st.heap as st.t cfg.tmax).2.2,
+                          trace := st.trace ++ [callEvent ops cfg k as st] } := by
+  obtain ⟨h1, hwf, h2, h3, h4, _⟩ := hR.op k st.ost st.heap as st.t cfg.tmax g.wf g.regionValid g.iso has
+  apply g.heapChange _ h1 hwf h2 h3
+  apply assign_pred (fun a => a < (ops.op k st.ost st.heap as st.t cfg.tmax).2.1.length ∧ ¬ InReg st.heap S a)
   · intro r a h
     have := g.regs r a h
     exact ⟨lt_of_lt_of_le this.1 h1, this.2⟩
+  · exact h4
+
+theorem Good.log {st : State σ V} (g : Good d S V0 st) (hR : Respects S ops) (k : LogK)
+    (as : List Ref) (has : ∀ a ∈ as, a < st.heap.length ∧ ¬ InReg st.heap S a) :
+    Good d S V0 { st with ost := (ops.log k st.ost st.heap as st.t cfg.tmax st.rep).1,
+                          heap := (ops.log k st.ost st.heap as st.t cfg.tmax st.rep).2,
+                          trace := st.trace ++ [logEvent cfg k as st] } := by
+  obtain ⟨h1, hwf, h2, h3⟩ := hR.log k st.ost st.heap as st.t cfg.tmax st.rep g.wf g.regionValid g.iso has
+  have := g.heapChange (ops.log k st.ost st.heap as st.t cfg.tmax st.rep).2 h1 hwf h2 h3 st.regs
+    (fun r a h => ⟨lt_of_lt_of_le (g.regs r a h).1 h1, (g.regs r a h).2⟩)
+    (ops.log k st.ost st.heap as st.t cfg.tmax st.rep).1 (st.trace ++ [logEvent cfg k as st])
+  exact this
 
 end
 end Program
